@@ -3,6 +3,7 @@
 import Csvq.Model.Lock
 import Csvq.Gen.FsProto
 import Csvq.Model.Retry
+import Csvq.Model.Release
 import Csvq.Gen.RetryLoop
 namespace Csvq.Drive
 open Csvq.Lock
@@ -70,10 +71,10 @@ def traceStmts (env : Env) (T : Nat) (tr : List TStmt) : List RStmt → LSt → 
     if evalCond T s c then (log ++ [s!"instant {s.t}: {cs}? yes -> {rs}"], .ret r { s with t := s.t + 1 })
     else traceStmts env T tr rest { s with t := s.t + 1 } (log ++ [s!"instant {s.t}: {cs}? no"])
   | .selectCtxOrTimer r :: rest, s, log =>
-    let d := 1 + (env s.t).delay
+    let d := (env s.t).delay
     let rs := match r with | .fileNil => "return f, nil" | .nilErr => "return nil, <error>"
-    if T ≤ s.t + d then (log ++ [s!"instant {s.t}: select: ctx.Done() -> {rs}"], .ret r { s with t := s.t + 1 })
-    else traceStmts env T tr rest { s with t := s.t + d } (log ++ [s!"instant {s.t}: select: timer after {d}"])
+    if selectReturns T s.t d (env s.t).timerWins then (log ++ [s!"instant {s.t}: select: ctx.Done() -> {rs}"], .ret r { s with t := s.t + 1 })
+    else traceStmts env T tr rest { s with t := s.t + d + 1 } (log ++ [s!"instant {s.t}: select: timer after {d}"])
 
 open Csvq.Retry in
 def traceRun (env : Env) (T : Nat) (tr : List TStmt) (lp : Loop) (fuel : Nat) : List String :=
@@ -91,9 +92,9 @@ def traceRun (env : Env) (T : Nat) (tr : List TStmt) (lp : Loop) (fuel : Nat) : 
 open Csvq.Retry in
 /-- environments tried: nobody else; somebody else's `.lock` / `.rlock` during the first k instants -/
 def searchEnvs : List (String × Env) :=
-  [("no other process", fun _ => ⟨false, false, false, false, 0⟩)] ++
-  (List.range 8).map (fun k => (s!"another process holds .lock during instants 0..{k}", fun t => ⟨decide (t ≤ k), false, false, false, 0⟩)) ++
-  (List.range 8).map (fun k => (s!"another process holds an .rlock during instants 0..{k}", fun t => ⟨false, decide (t ≤ k), false, false, 0⟩))
+  [("no other process", fun _ => ⟨false, false, false, false, 0, false⟩)] ++
+  (List.range 8).map (fun k => (s!"another process holds .lock during instants 0..{k}", fun t => ⟨decide (t ≤ k), false, false, false, 0, false⟩)) ++
+  (List.range 8).map (fun k => (s!"another process holds an .rlock during instants 0..{k}", fun t => ⟨false, decide (t ≤ k), false, false, 0, false⟩))
 
 open Csvq.Retry in
 def retrySearch : String :=
@@ -114,6 +115,55 @@ def retrySearch : String :=
     s!"violating-schedule: CreateControlFileContext({cfName ft}); {e.1}; the context (wait timeout / cancellation) ends at instant {T}; " ++
       String.intercalate "; " (traceRun e.2 T (Csvq.Gen.Retry.tryOf ft) Csvq.Gen.Retry.retryLoop 40) ++ s!" => {verdict}"
 
+/-! ### search over the REGENERATED release functions: a schedule (failures of steps, the instant at which another
+    process takes the table) after which the releaser has changed the table's file under another process, or
+    another process has met a `.temp` file of the releaser -/
+
+open Csvq.Retry Csvq.Release in
+def relOpShow : RelOp → String
+  | .closeFp => "file.Close(h.fp)"
+  | .removeCreated => "os.Remove(h.path) [the table this handler created]"
+  | .closeTempFp => "file.Close(h.tempFile.fp)"
+  | .renameTemp => "os.Rename(.temp -> table)"
+  | .closeCF .lock => "remove .lock"
+  | .closeCF .rlock => "remove .rlock"
+  | .closeCF .temp => "remove .temp"
+
+open Csvq.Retry Csvq.Release in
+def releaseSearch : String :=
+  let fns : List (String × List RStep) :=
+    [("Handler.close", Csvq.Gen.Retry.releaseClose), ("Handler.closeWithErrors", Csvq.Gen.Retry.releaseCloseWithErrors),
+     ("Handler.commit (update)", Csvq.Gen.Retry.releaseCommitUpdate), ("Handler.commit (other)", Csvq.Gen.Retry.releaseCommitOther)]
+  let kinds : List (String × Mine × Bool) :=
+    [("a handler opened for update (.lock + .temp)", ⟨true, false, true⟩, false),
+     ("a handler that created the table (.lock, uncommitted file)", ⟨true, false, false⟩, true),
+     ("a read handler (.rlock)", ⟨false, true, false⟩, false)]
+  let cands := fns.flatMap (fun f => kinds.flatMap (fun k =>
+    if f.1 == "Handler.commit (update)" && !k.2.1.lock then [] else
+    (List.range (f.2.length + 1)).flatMap (fun failAt =>       -- failAt = length: nothing fails
+      (List.range (f.2.length + 1)).map (fun enterAt => (f, k, failAt, enterAt)))))
+  let sched := fun (n failAt enterAt : Nat) =>
+    (List.range (n + 1)).flatMap (fun i =>
+      (if i == enterAt then [Ev.otherEnter, Ev.otherLeave] else []) ++ (if i < n then [Ev.stepA (i == failAt)] else []))
+  let bad := cands.find? (fun c =>
+    let (f, k, failAt, enterAt) := c
+    let s := run (start k.2.1 k.2.2 f.2) (sched f.2.length failAt enterAt)
+    s.touchedUnlocked || s.inTheWay || s.dropped != 0)
+  match bad with
+  | none => s!"no-violating-schedule among {cands.length} (function, handler, failing step, instant of the other process) combinations"
+  | some (f, k, failAt, enterAt) =>
+    let s := run (start k.2.1 k.2.2 f.2) (sched f.2.length failAt enterAt)
+    let lines := (List.range (f.2.length + 1)).flatMap (fun i =>
+      (if i == enterAt then ["ANOTHER PROCESS takes the table (its .lock file is gone), may commit, and leaves"] else []) ++
+      (match f.2[i]? with
+       | some st => [s!"step {i + 1}: {relOpShow st.op}{if i == failAt then " FAILS" else ""}"]
+       | none => []))
+    let verdict :=
+      if s.touchedUnlocked then "the releaser removes / replaces the table's file AFTER another process could hold the table: that process's committed change is lost"
+      else if s.inTheWay then "the process that takes the table meets a .temp file of the releaser"
+      else "a failure is dropped"
+    s!"violating-schedule: {f.1} of {k.1}; " ++ String.intercalate "; " lines ++ s!" => {verdict}"
+
 def c09 (cmd : String) (args : List String) : String :=
   match cmd, args with
   | "trace", _roles :: evs =>
@@ -127,13 +177,27 @@ def c09 (cmd : String) (args : List String) : String :=
     let r := evs.foldl step ({ lockOwner := none, rlocks := [] }, [])
     String.intercalate "," r.2.reverse
   | "retrysearch", _ => retrySearch
+  | "releasesearch", _ => releaseSearch
+  | "createrace", [cls] =>
+    -- two processes CREATE the same table: H is held before (cls = before) / after (cls = after) it has created its
+    -- `.lock` while S runs its whole constructor (and, if it succeeds, commits and releases); the regenerated
+    -- NewHandlerForCreate with the regenerated TryCreateLockFile as its one attempt
+    let prog := Csvq.Gen.Retry.newHandlerForCreate
+    let tryIn := fun (busy : Bool) =>
+      let o := Csvq.Retry.runTry (fun _ => ⟨busy, false, false, false, 0, false⟩) (Csvq.Gen.Retry.tryOf .lock) 0 .none []
+      (o.res, o.mine)
+    let s := Csvq.Retry.runCreate false false false (tryIn (cls == "after")) prog .init none
+    let h := Csvq.Retry.runCreate false (cls == "before" && !s.1) false (tryIn false) prog .init none
+    let word := fun (b : Bool) => if b then "err" else "ok"
+    let table := if !h.1 then "H" else if !s.1 && !h.2.removedForeign then "S" else "none"
+    s!"H:{word h.1} S:{word s.1} table:{table}"
   | "cancelat", [ft, e, T] =>
     -- the regenerated retry loop on a free table (or one held by another process for ever), the context over from instant T on
     let f? : Option Csvq.Retry.CF := match ft with
       | "lock" => some .lock | "rlock" => some .rlock | "temp" => some .temp | _ => none
     match f?, T.toNat? with
     | some f, some T =>
-      let env : Csvq.Retry.Env := fun _ => ⟨e == "busy", false, false, false, 0⟩
+      let env : Csvq.Retry.Env := fun _ => ⟨e == "busy", false, false, false, 0, false⟩
       match Csvq.Retry.run env T (Csvq.Gen.Retry.tryOf f) Csvq.Gen.Retry.retryLoop 60 0 with
       | some (.fileNil, s) => "ok:" ++ mineShow s.mine
       | some (.nilErr, s) => "err:" ++ mineShow s.mine
